@@ -123,6 +123,14 @@ func Advance(ns int64) {}
 // NowNs returns virtual nanoseconds since start (engine only).
 func NowNs() int64 { return 0 }
 
+// And / Or are non-short-circuit boolean connectives: in the engine they build one term
+// instead of forking the path (Go's && and || compile to branches).
+func And(a, b bool) bool { return a && b }
+func Or(a, b bool) bool  { return a || b }
+
+// InRange reports lo <= c <= hi without forking.
+func InRange(c, lo, hi byte) bool { return And(c >= lo, c <= hi) }
+
 // ---- derived helpers (ordinary Go, executed symbolically by the engine) ----
 
 func Bool(name string) bool       { return U64(name, 1) != 0 }
